@@ -95,7 +95,7 @@ def prepare_input(path, container):
         for r in vin:
             vout.write(r)
     if container == "bcf+csi":
-        pysam.bcftools.index(bcf, catch_stdout=False)
+        pysam.tabix_index(bcf, preset="bcf", csi=True, force=True)
     return bcf
 
 
@@ -133,7 +133,9 @@ def run_case(ctx, case, wd, idx):
         with open(os.path.join(d, "lengths.tsv"), "w") as f:
             for name, ln in case["chr_lengths"].items():
                 f.write(f"{name}\t{ln}\n")
-        contigs = [(name, case["chr_lengths"].get(name)) for name, _ in contigs]     # effective lengths
+        # effective lengths: the file replaces the header's lengths (also for chromosomes the header does not declare)
+        known = [name for name, _ in contigs]
+        contigs = [(name, case["chr_lengths"].get(name)) for name in known + sorted({c for c, _ in groups if c not in known})]
     given = G.unpack_chromosomes(case.get("chromosomes"))
     ids = G.chrom_ids(contigs, groups, given)
     full = ["tsv", "bl", "gtf"]
@@ -414,12 +416,157 @@ OVERLAP_CORPUS = {
     "sample": None, "only_snvs": False, "chromosomes": None, "indexed": False, "tags": {"corpus": "overlap"}}
 
 
+def tally_case(ctx, r):
+    """input-distribution counters: option values, containers, names, and what the abstracted input actually contains"""
+    c = r["case"]
+    t = c.get("tags", {})
+    T = ctx.tally
+    T("cases")
+    T(f"ploidy.{t.get('ploidy', 2)}")
+    T("records", sum(len(g[1]) for g in r["groups"]))
+    T("chromosomes_total", len(r["groups"]))
+    T("n_chromosomes." + (str(len(r["groups"])) if len(r["groups"]) < 4 else "4+"))
+    T("container." + (c.get("container") or ("gz+tbi" if c.get("indexed") else "vcf")))
+    T("outputs." + "+".join(c.get("outputs") or ["tsv", "bl", "gtf"]))
+    if c.get("only_snvs"):
+        T("opt.only_snvs")
+    if c.get("sample"):
+        T("opt.sample")
+        first = c["vcf"].split("#CHROM")[1].split("\n")[0].split("\t")[9]
+        if c["sample"] != first:
+            T("opt.sample.not_the_first_sample")
+    if t.get("decorated"):
+        T("records_with_ID_QUAL_FILTER_INFO_and_extra_FORMAT_keys")
+    if "n50_delta" in t:
+        T(f"n50_boundary.half_target_minus_prefix_sum.{t['n50_delta']}")
+    body = [l.split("\t") for l in c["vcf"].split("\n") if l and not l.startswith("#")]
+    if any("|" in x.split(":")[0] and "/" in x.split(":")[0] for l in body for x in l[9:]):
+        T("has.mixed_separator_genotype")
+    if any(l[4] == "*" for l in body):
+        T("has.star_allele")
+    if "sample_names" in t:
+        T(f"sample_name_style.{t['sample_names']}")
+    if c.get("chr_lengths") is not None:
+        T("opt.chr_lengths")
+    ch = c.get("chromosomes")
+    if ch:
+        T("opt.chromosome")
+        if any("," in x for x in ch):
+            T("opt.chromosome.comma_list")
+        if len(ch) > 1:
+            T("opt.chromosome.repeated_flag")
+        if not r["given"]:
+            T("opt.chromosome.unpacks_to_nothing")
+        names = [g[0] for g in r["groups"]]
+        if any(x not in names for x in r["given"]):
+            T("opt.chromosome.name_without_records")
+        pres = [x for x in r["given"] if x in names]
+        if len(pres) >= 2 and pres != [x for x in names if x in pres]:
+            T("opt.chromosome.order_differs_from_file")
+    for k in ("unsorted", "noncontiguous", "dup_chromosome_arg"):
+        if t.get(k):
+            T("l2_only." + k)
+    for k in ("grid_exhaustive", "grid_random", "exhaustive", "multi_exhaustive", "multi_random", "n50_boundary",
+              "empty_file", "no_contig_header"):
+        if t.get(k):
+            T("stream." + k)
+    names = [g[0] for g in r["groups"]]
+    if names != sorted(names):
+        T("chromosome_file_order_not_lexicographic")
+    if any(a != b and (a.startswith(b) or b.startswith(a)) for a in names for b in names):
+        T("chromosome_names_share_prefix")
+    out = r["out"]
+    if isinstance(out, str):
+        T("impl_aborted." + out)
+        return
+    if out["all"] is not None:
+        T("with_ALL_row")
+    for cid, (vals, n50) in out["rows"] + ([(0, out["all"])] if out["all"] else []):
+        d = dict(zip(G.INT_FIELDS, vals))
+        T("row.ng50." + ("nan" if n50 is None else ("zero" if n50 == 0 else "positive")))
+        if d["blocks"] >= 2 and d["bp_per_block_min"] == d["bp_per_block_max"]:
+            T("row.ties.equal_block_lengths")
+        if d["blocks"] >= 2 and d["variant_per_block_min"] == d["variant_per_block_max"]:
+            T("row.ties.equal_block_sizes")
+    only = bool(c.get("only_snvs"))
+    sel = set(r["given"]) if r["given"] else None
+    feats = set()
+    for cname, recs in r["groups"]:
+        if sel is not None and cname not in sel:
+            continue
+        if any(x["nalts"] != 1 for x in recs):
+            feats.add("multi_or_no_ALT_record")
+        el = [x for x in recs if x["nalts"] == 1 and (not only or x["snv"])]
+        if len({x["pos"] for x in el}) < len(el):
+            feats.add("duplicated_position")
+        if only and any(not x["snv"] for x in recs):
+            feats.add("only_snvs_drops_records")
+        cs = G.o_counted(only, recs)
+        if not cs:
+            feats.add("chromosome_without_counted_records")
+        if cs and cs[0]["pos"] == 0:
+            feats.add("first_record_at_position_1")
+        if any(x["pos"] > 2 ** 28 for x in cs):
+            feats.add("positions_above_2^28")
+        if any(b["pos"] - a["pos"] == 1 for a, b in zip(cs, cs[1:])):
+            feats.add("adjacent_positions")
+        hs = [x for x in cs if G.o_het(x)]
+        if any(x["gt"] is not None and G._fully(x["gt"]) and len(set(x["gt"])) == 1 and (x["hp"] is not None or (x["phased"] and x["ps"] != "absent"))
+               for x in cs):
+            feats.add("homozygous_with_phase_tag")
+        if any(x["hp"] is not None for x in hs):
+            feats.add("HP_tagged")
+        if any(x["hp"] is None and x["phased"] and x["ps"] == "absent" for x in hs):
+            feats.add("pipe_without_PS_key")
+        if any(x["hp"] is None and x["phased"] and isinstance(x["ps"], int) for x in hs):
+            feats.add("PS_tagged")
+        if any(G.o_set(x) is None for x in hs):
+            feats.add("unphased_het")
+        sets = {}
+        for x in hs:
+            if G.o_set(x) is not None:
+                sets.setdefault(G.o_set(x), []).append(x["pos"])
+        if any(k <= 0 for k in sets):
+            feats.add("phase_set_id_zero_or_negative")
+        big = [v for v in sets.values() if len(v) >= 2]
+        feats.add("big_sets." + (str(len(big)) if len(big) < 3 else "3+"))
+        if any(len(v) == 1 for v in sets.values()):
+            feats.add("singleton_set")
+        if any(len(v) == 2 for v in sets.values()):
+            feats.add("set_of_exactly_2")
+        ov = sum(1 for a in big for b in big if a is not b and a[0] < b[0] < a[-1])
+        if ov:
+            feats.add("overlapping_sets")
+        if sum(1 for a in big if sum(1 for b in big if a is not b and (a[0] < b[0] < a[-1] or b[0] < a[0] < b[-1])) >= 2) >= 3:
+            feats.add("three_mutually_overlapping_sets")
+        pieces = G.o_pieces(list(sets.values()))
+        if sorted(pieces) != sorted(v[-1] - v[0] for v in big):
+            feats.add("pieces_differ_from_sets")
+        if len(pieces) > len(big):
+            feats.add("a_set_contributes_two_pieces")
+        if big and len(pieces) < len(big):
+            feats.add("a_set_contributes_no_piece")
+    for f in feats:
+        T("has." + f)
+    if any(G.missing_gt(x) for x in processed_recs(r)):
+        T("has.missing_or_partial_genotype")
+    if any(G.ps_missing_phased(x) for x in processed_recs(r)):
+        T("has.phased_call_ps_missing")
+    if t.get("n50_boundary") and out["rows"]:
+        T("n50_boundary.rows")
+
+
 def run(ctx):
     rng = ctx.rng
     wd = workdir(ctx)
     # corpus: a phase set nested in another on chr1, ordinary blocks on chr2 / chr3 that start between the two
     cross = G._grid_case(["aaabbaa", "-cccu", "ccb"], [0, 50, -99], tag="corpus_cross")
-    cases = [cross, dict(cross, only_snvs=True), F4_CORPUS, OVERLAP_CORPUS, dict(OVERLAP_CORPUS, only_snvs=True), dict(OVERLAP_CORPUS, chromosomes=["chrB"]),
+    # malformed-but-accepted (L2 only): a chromosome in two runs of records; a --chromosome name given twice (with index)
+    split_chrom = dict(cross, vcf=cross["vcf"].replace("chr1\t600", "chr1\t600").rstrip("\n") + "\nchr1\t2000\t.\tA\tC\t.\t.\t.\tGT:PS\t0|1:10\n",
+                       tags={"noncontiguous": True, "ploidy": 2, "miss": False})
+    dup_arg = dict(cross, container="gz+tbi", indexed=True, chromosomes=["chr1,chr1", "chr2"],
+                   tags={"dup_chromosome_arg": True, "ploidy": 2, "miss": False})
+    cases = [cross, dict(cross, only_snvs=True), split_chrom, dup_arg, F4_CORPUS, OVERLAP_CORPUS, dict(OVERLAP_CORPUS, only_snvs=True), dict(OVERLAP_CORPUS, chromosomes=["chrB"]),
              dict(OVERLAP_CORPUS, indexed=True, chromosomes=["chrB,chrA"])]
     exh = list(G.gen_exhaustive(ctx.n(3, 4), "PS", symbols=ctx.n("abuhmp", "abuhmpi")))
     if not ctx.quick:
@@ -441,6 +588,8 @@ def run(ctx):
     ctx.extra["multi_set_stream"] = (f"{len(multi)} one-chromosome cases: every distribution of {ctx.n('6-7', '6-8')} slots over <= "
                                      f"{ctx.n(3, 4)} phase sets (up to renaming, >= 2 sets with >= 2 members: all interleavings and "
                                      "nestings), plus random layouts of 3-4 sets over 6-10 irregularly spaced slots")
+    cases += [G.empty_case(True), G.empty_case(False)]
+    cases += [G.gen_n50_boundary(rng) for _ in range(ctx.n(60, 600))]
     n = ctx.n(250, 3000)
     for i in range(n):
         size = "tiny" if i % 5 == 0 else ("large" if i % 7 == 0 else "small")
@@ -455,33 +604,7 @@ def run(ctx):
         c = r["case"]
         key = (G.case_term(bool(c.get("only_snvs")), is_indexed(c), r["contigs"], r["groups"], r["given"], r["ids"], "EOther"))
         ctx.count(key, nontrivial=nontrivial(r))
-        t = c.get("tags", {})
-        ctx.tally("cases")
-        ctx.tally(f"ploidy.{t.get('ploidy', 2)}")
-        ctx.tally("records", sum(len(g[1]) for g in r["groups"]))
-        ctx.tally("chromosomes", len(r["groups"]))
-        for k in ("only_snvs", "indexed"):
-            if c.get(k):
-                ctx.tally("opt." + k)
-        if c.get("chromosomes"):
-            ctx.tally("opt.chromosome")
-        if c.get("sample"):
-            ctx.tally("opt.sample")
-        if c.get("chr_lengths") is not None:
-            ctx.tally("opt.chr_lengths")
-        if t.get("unsorted"):
-            ctx.tally("malformed.unsorted")
-        for k in ("grid_exhaustive", "grid_random", "exhaustive", "multi_exhaustive", "multi_random"):
-            if t.get(k):
-                ctx.tally("stream." + k)
-        if r["out"] and not isinstance(r["out"], str) and r["out"]["all"] is not None:
-            ctx.tally("with_ALL_row")
-        if any(G.missing_gt(x) for x in processed_recs(r)):
-            ctx.tally("with_missing_or_partial_genotype")
-        if any(G.ps_missing_phased(x) for x in processed_recs(r)):
-            ctx.tally("with_phased_call_ps_missing")
-        if r["rc"] != 0:
-            ctx.tally("impl_nonzero_exit")
+        tally_case(ctx, r)
     for r in results[:2] + results[5:8]:
         ctx.sample({"options": {k: r["case"].get(k) for k in ("sample", "only_snvs", "chromosomes", "indexed")},
                     "vcf_records": [l for l in r["case"]["vcf"].split("\n") if l and not l.startswith("#")][:12],
